@@ -33,6 +33,7 @@ type frame struct {
 	panicVal  Value
 	panicPos  string
 	curPos    string
+	harness   int
 	visits    map[int]int
 }
 
@@ -318,7 +319,7 @@ func (fr *frame) runBlocks() (done bool) {
 	for {
 		b := fr.block
 		fr.visits[b.Index]++
-		if fr.visits[b.Index] > m.Opt.LoopBound {
+		if fr.visits[b.Index] > m.Opt.LoopBound && !fr.isHarness() {
 			m.end(StUnwind, "loop bound %d exceeded in %s block %d", m.Opt.LoopBound, fr.fn, b.Index)
 		}
 		jumped := false
@@ -1300,4 +1301,26 @@ func (m *Machine) typeAssert(fr *frame, in *ssa.TypeAssert, x Iface) Value {
 		m.runtimePanic(fr, "interface conversion: interface {} is %s, not %s", x.T, in.AssertedType)
 	}
 	return copyVal(v)
+}
+
+// isHarness: frames of harness / reference code (overlay files zz_*) are not subject to the unwinding bound of the
+// code under test (their loops are bounded by construction; the global step limit still applies).
+func (fr *frame) isHarness() bool {
+	if fr.harness == 0 {
+		fr.harness = 2
+		f := fr.fn
+		for f.Parent() != nil {
+			f = f.Parent()
+		}
+		if pos := f.Pos(); pos.IsValid() {
+			name := fr.m.P.Fset.Position(pos).Filename
+			if i := strings.LastIndex(name, "/"); i >= 0 {
+				name = name[i+1:]
+			}
+			if strings.HasPrefix(name, "zz_") {
+				fr.harness = 1
+			}
+		}
+	}
+	return fr.harness == 1
 }
